@@ -19,6 +19,8 @@ The record sequence is read by the oracle with its own complement table and part
 from __future__ import annotations
 
 import itertools
+import json
+import zlib
 import traceback
 
 from Bio.Seq import Seq
@@ -852,6 +854,32 @@ def gen_find_case(rng):
             "min_length": minimum, "max_overlap": allowance}, how
 
 
+def ranges_beside_a_section_of_an_origin_gene(case):
+    """ the same record searched in a range that begins just after the section of an origin-crossing gene lying after
+        the origin (or ends just before its section lying before the origin): that section is wholly outside the
+        range. Every fourth such case, chosen from the case itself. """
+    length = len(case["seq"])
+    if not case["circular"] or zlib.crc32(json.dumps(case, sort_keys=True).encode()) % 4:
+        return
+    for gene in case["genes"]:
+        parts = [tuple(p) for p in gene["parts"]]
+        after = [p for p in parts if p[0] == 0]
+        before = [p for p in parts if p[1] == length]
+        if not after or not before or len(parts) < 2:
+            continue
+        step = (0, 1, 3, case["max_overlap"])[zlib.crc32(str(parts).encode()) % 4]
+        begin = after[0][1] + step
+        # (with an allowance reaching from the section left out into the range, and with the case's own)
+        if begin + 12 < length:
+            yield dict(case, area=[begin, length])
+            yield dict(case, area=[begin, length], max_overlap=begin + 21)
+        end = before[0][0] - step
+        if end > 12:
+            yield dict(case, area=[0, end])
+            yield dict(case, area=[0, end], max_overlap=length - end + 21)
+        return
+
+
 def run_find_case(ctx, case, how=None):
     length = len(case["seq"])
     extents = []
@@ -923,6 +951,9 @@ def run(ctx):
     for _ in ctx.cases(ctx.quota(6000, 400000)):
         case, how = gen_find_case(rng)
         run_find_case(ctx, case, how)
+        for variant in ranges_beside_a_section_of_an_origin_gene(case):
+            ctx.count("class:range-leaves-out-one-section-of-an-origin-gene")
+            run_find_case(ctx, variant, None)
 
 
 def replay(ctx, case):
